@@ -212,6 +212,23 @@ KINDS3 = {
 }
 
 
+QUICK_E2E_BUDGET_S = 100     # quick tier: no new sampled 2-process scenario is started later than this after the first
+QUICK_PER_KIND = 14          # quick tier: sampled interleavings per same-kind 2-process scenario kind
+
+
+def sample_schedules(rng, alls, n):
+    """n of the interleavings `alls` of two processes: the four extreme ones (one process after the other, strictly
+    alternating from either side) and a seeded sample of the rest"""
+    if len(alls) <= n:
+        return list(alls)
+    c0, c1 = alls[0].count(0), alls[0].count(1)
+    alt = lambda a, b, ca, cb: [x for i in range(max(ca, cb)) for x in ([a] if i < ca else []) + ([b] if i < cb else [])]
+    fixed = [[0] * c0 + [1] * c1, [1] * c1 + [0] * c0, alt(0, 1, c0, c1), alt(1, 0, c1, c0)]
+    fixed = [f for k, f in enumerate(fixed) if f in alls and f not in fixed[:k]]
+    rest = [a for a in alls if a not in fixed]
+    return fixed + rng.sample(rest, max(0, n - len(fixed)))
+
+
 def step_counts(procs):
     return [sum(STEPS["ncommit" if c.get("notes_only") else c["type"]] for c in p) for p in procs]
 
@@ -524,10 +541,33 @@ def stress_round(spec):
 
 # ---------------------------------------------------------------- phases
 
-def phase_controlled(res, scs, name, threads=12):
+def n_threads(cap=12):
+    """scenarios in flight: every scenario runs 2-3 git-ai processes plus git; more scenarios than cores only
+    stretches the waits at the sync points (git-ai gives a point up after 20 s)"""
+    return max(3, min(cap, os.cpu_count() or 4))
+
+
+def mark(res, phase, t0):
+    """per-phase wall time, printed and kept in the evidence"""
+    dt = round(time.time() - t0, 1)
+    res.extra.setdefault("phase_wall_s", {})[phase] = dt
+    C.log(f"[C11] phase {phase}: {dt}s")
+
+
+def phase_controlled(res, scs, name, threads=None, deadline=None):
+    """runs the scenarios (in parallel, one scratch repository each); with a `deadline` (quick tier) scenarios
+    that have not started by then are skipped and counted as such — never a failure"""
     t0 = time.time()
+    threads = threads or n_threads()
+    outs, skipped = [], 0
     with concurrent.futures.ThreadPoolExecutor(threads) as ex:
-        outs = list(ex.map(run_controlled, scs))
+        pending = list(scs)
+        while pending:
+            if deadline is not None and time.time() > deadline:
+                skipped = len(pending)
+                break
+            chunk, pending = pending[:threads * 2], pending[threads * 2:]
+            outs += list(ex.map(run_controlled, chunk))
     # one driver call for all model runs and path-function checks of this phase
     good = [o for o in outs if not o["error"]]
     preqs = [pr for o in good for pr in o["path_requests"]]
@@ -568,12 +608,17 @@ def phase_controlled(res, scs, name, threads=12):
     cs = res.extra.setdefault("correspondence", {}).setdefault(name, {"compared": 0, "disagreements": 0})
     cs["compared"] += len(outs); cs["disagreements"] += nbad
     cs["wall_s"] = round(time.time() - t0, 1)
+    cs["threads"] = threads
+    if skipped:
+        cs["not_run_time_budget"] = cs.get("not_run_time_budget", 0) + skipped
+    C.log(f"[C11] {name[:70]}…: {len(outs)} scenarios, {skipped} not run (time budget), {cs['wall_s']}s")
     if nbad:
         res.broken_tie(name, {"disagreements": nbad, "of": len(outs), "first": first})
     return nbad
 
 
-def phase_stress(res, rounds, seed, threads=4):
+def phase_stress(res, rounds, seed, threads=None):
+    threads = threads or max(2, min(4, (os.cpu_count() or 4) // 2))
     import random
     rng = random.Random(seed * 7919 + 11)
     specs = []
@@ -624,13 +669,15 @@ def run_(tier, seed):
     res = C.Result(PROP, tier, seed)
     res.rule = ("controlled: real `git-ai checkpoint agent-v1` / `git commit` processes released one sync point at a time "
                 "(lock attempt, snapshot, read, write; notes add) along a schedule = list of process indices, continued "
-                "round-robin; quick: ALL interleavings of the points of 2 processes for 7 scenario kinds (reports of distinct "
-                "files / one file / equal content / several files, commits in one worktree, commits in two linked worktrees, "
-                "report vs commit) + rewrite log at its retention limit; thorough adds 3 processes with up to 2 commands each "
-                "(sampled schedules). mixed notes writers: a batch writer (cherry-pick / rebase in a linked worktree: lock, "
+                "round-robin; 7 same-kind scenario kinds of 2 processes (reports of distinct files / one file / equal content / "
+                "several files, commits in one worktree, commits in two linked worktrees, report vs commit) + rewrite log at its "
+                "retention limit: thorough = ALL interleavings of their points, quick = the 4 extreme schedules + a seeded sample "
+                "per kind inside a wall-time budget (what was not run is recorded); thorough adds 3 processes with up to 2 "
+                "commands each (sampled schedules). mixed notes writers: a batch writer (cherry-pick / rebase in a linked worktree: lock, "
                 "rev-parse of the notes tip, fast-import) against single writers (commits in other worktrees: lock, git notes "
-                "add) and against another batch writer — ALL interleavings of the notes points of 2 processes for 4 kinds, "
-                "sampled schedules of 3 processes / 2 commands each for 3 kinds. distinct = distinct (programs, schedule); non-trivial = the schedule really interleaves "
+                "add) and against another batch writer — ALL interleavings of the notes points of 2 processes for the 3 "
+                "batch-vs-single kinds (quick and thorough; batch-vs-batch: sampled in quick), sampled schedules of 3 processes / "
+                "2 commands each for 3 kinds. distinct = distinct (programs, schedule); non-trivial = the schedule really interleaves "
                 "(more than one process index). stress: 8-16 parallel reports / parallel commits in 2-3 linked worktrees "
                 "without controller, and a rebase (batch note writer) racing a commit in another worktree")
     res.trusted = ["Lean 4.33 kernel (axioms: propext, Quot.sound, Classical.choice only)",
@@ -647,7 +694,9 @@ def run_(tier, seed):
                        "without the notes lock) and refs/notes/ai-stash are outside the quantifier (checkpoint, commit, rewrite operations); "
                        "the extractor lists them and fails on any other writer",
                        "a checkpoint racing with a commit in the SAME worktree is outside the property (the base commit changes under it)"]
+    t0 = time.time()
     ok, out = C.build_git_ai()
+    mark(res, "build git-ai", t0)
     if not ok:
         res.obligation("build binary from /repo working tree", False, "build")
         res.broken_tie("build", out[-3000:])
@@ -655,9 +704,13 @@ def run_(tier, seed):
     res.obligation("build binary from /repo working tree", True, "build")
     # the lock order of the notes writers is read off the source BEFORE the Lean build: Props/C11.lean decides
     # lock < read < write on the regenerated table (`extracted_lock_order`)
+    t0 = time.time()
     rows = phase_lock_order(res)
+    mark(res, "extract lock order", t0)
+    t0 = time.time()
     if not C.phase_proofs(res, PROP, THEOREMS):
         C.lake_build(["driver"])      # the model runs below need the driver even when a theorem no longer checks
+    mark(res, "lean build + axiom audit", t0)
     lock_table(res, rows)
 
     # static tie: the code has the shape the `full` discipline describes; MAX_EVENTS agrees
@@ -668,63 +721,95 @@ def run_(tier, seed):
     if problems:
         res.broken_tie("extraction:lock-sites", problems)
 
+    quick = tier == "quick"
     rng = random.Random(seed)
-    # 1. corpus (witness schedules of the pre-repair defects) first
+    e2e_t0 = time.time()
+    # quick: the sampled phases stop starting new scenarios at this point (what was not run is in the evidence)
+    deadline = e2e_t0 + QUICK_E2E_BUDGET_S if quick else None
+    res.extra["quick_e2e_budget_s"] = QUICK_E2E_BUDGET_S if quick else None
+    # 1. corpus (witness schedules of the pre-repair defects and of the seeded regressions) first
     corpus = load_corpus()
     if corpus:
+        t0 = time.time()
         phase_controlled(res, corpus, "correspondence:conc-e2e corpus (model `full` vs binary, same schedule)")
-    # 2. exhaustive two-process enumeration
-    scs = []
-    for kind, procs in KINDS2.items():
-        for s in U.interleavings(step_counts(procs)):
-            scs.append({"kind": kind, "procs": procs, "schedule": s})
-    # rewrite log at its retention limit (MAX_EVENTS): two appends on 199 seeded events
-    for s in rng_schedules(rng, [5, 5], 8 if tier == "quick" else 40):
-        scs.append({"kind": "commit-same-wt-maxevents", "procs": KINDS2["commit-same-wt"], "schedule": s,
-                    "seed_rewrite": (facts.get("MAX_EVENTS") or 200) - 2})
-    res.extra["exhaustive_two_process"] = {k: len(list(U.interleavings(step_counts(p)))) for k, p in KINDS2.items()}
-    phase_controlled(res, scs, "correspondence:conc-e2e all 2-process interleavings (model `full` vs binary)")
-    # 2b. mixed notes writers: a batch writer against single writers (and against another batch writer)
+        mark(res, "e2e corpus", t0)
+    # 2. mixed notes writers: a batch writer against single writers (and against another batch writer).
+    #    quick: ALL interleavings of batch-vs-single (3 kinds), a sample of batch-vs-batch and of 3 processes
+    t0 = time.time()
     mixed = []
     for kind, procs in MIXED2.items():
-        for s in U.interleavings(step_counts(procs)):
+        allm = list(U.interleavings(step_counts(procs)))
+        if quick and kind == "pick-vs-pick":
+            allm = sample_schedules(rng, allm, 8)
+        for s in allm:
             mixed.append({"kind": "mixed:" + kind, "procs": procs, "schedule": s, "serial_ref": False})
     for kind, procs in MIXED3.items():
-        for s in rng_schedules(rng, step_counts(procs), 12 if tier == "quick" else 150):
+        for s in rng_schedules(rng, step_counts(procs), 5 if quick else 150):
             mixed.append({"kind": "mixed:" + kind, "procs": procs, "schedule": s, "serial_ref": False})
-    res.extra["exhaustive_mixed_writers"] = {k: len(list(U.interleavings(step_counts(p)))) for k, p in MIXED2.items()}
+    res.extra["exhaustive_mixed_writers"] = {k: len(list(U.interleavings(step_counts(p)))) for k, p in MIXED2.items()
+                                             if not (quick and k == "pick-vs-pick")}
     phase_controlled(res, mixed, "correspondence:conc-e2e mixed notes writers, batch (cherry-pick / rebase) vs single (commit): "
-                                 "all 2-process interleavings + sampled 3-process schedules (model lock table vs binary)")
-    # 3. three processes (thorough)
-    if tier == "thorough":
+                                 "2-process interleavings + sampled 3-process schedules (model lock table vs binary)")
+    mark(res, "e2e mixed notes writers", t0)
+    # 3. two processes of the same kind: thorough = ALL interleavings; quick = the four extreme schedules
+    #    (one after the other, strictly alternating) + a seeded sample per kind, inside the time budget
+    t0 = time.time()
+    scs = []
+    for kind, procs in KINDS2.items():
+        alls = list(U.interleavings(step_counts(procs)))
+        for s in (sample_schedules(rng, alls, QUICK_PER_KIND) if quick else alls):
+            scs.append({"kind": kind, "procs": procs, "schedule": s})
+    # rewrite log at its retention limit (MAX_EVENTS): two appends on 199 seeded events
+    for s in rng_schedules(rng, [5, 5], 4 if quick else 40):
+        scs.append({"kind": "commit-same-wt-maxevents", "procs": KINDS2["commit-same-wt"], "schedule": s,
+                    "seed_rewrite": (facts.get("MAX_EVENTS") or 200) - 2})
+    if quick:
+        rng.shuffle(scs)          # a cut by the time budget is spread over the kinds
+    res.extra["two_process_interleavings"] = {k: len(list(U.interleavings(step_counts(p)))) for k, p in KINDS2.items()}
+    res.extra["two_process_mode"] = f"sample of {QUICK_PER_KIND} per kind (incl. the 4 extreme schedules)" if quick else "exhaustive"
+    phase_controlled(res, scs, "correspondence:conc-e2e 2-process interleavings (model `full` vs binary)" if quick else
+                     "correspondence:conc-e2e all 2-process interleavings (model `full` vs binary)", deadline=deadline)
+    mark(res, "e2e two processes", t0)
+    # 4. three processes (thorough)
+    if not quick:
+        t0 = time.time()
         scs3 = []
         for kind, procs in KINDS3.items():
             for s in rng_schedules(rng, step_counts(procs), 300):
                 scs3.append({"kind": kind, "procs": procs, "schedule": s})
         phase_controlled(res, scs3, "correspondence:conc-e2e 3 processes, up to 2 updates each, sampled schedules")
+        mark(res, "e2e three processes", t0)
     mx = res.extra.get("model_max_events")
     res.obligation("extraction: rewrite_log.rs MAX_EVENTS equals the model's maxEvents", facts.get("MAX_EVENTS") == mx, "extraction")
     if facts.get("MAX_EVENTS") != mx:
         res.broken_tie("extraction:MAX_EVENTS", {"code": facts.get("MAX_EVENTS"), "model": mx})
-    # 4. stress
-    phase_stress(res, 50 if tier == "quick" else 200, seed)
+    # 5. stress (quick: 2 rounds of each of the 7 kinds, 1 when the budget is already used up)
+    t0 = time.time()
+    phase_stress(res, (7 if time.time() > deadline else 14) if quick else 200, seed)
+    mark(res, "stress", t0)
 
     if res.broken and not res.violations:
-        # a tie broke and no oracle has failed yet: search the implementation harder
+        # a tie broke and no oracle has failed yet: search the implementation harder (bounded in quick)
+        t0 = time.time()
+        per = 8 if quick else 30
         extra = []
         for kind, procs in KINDS2.items():
-            for s in rng_schedules(rng, step_counts(procs), 30):
+            for s in rng_schedules(rng, step_counts(procs), per):
                 extra.append({"kind": kind, "procs": procs, "schedule": s})
         for kind, procs in KINDS3.items():
-            for s in rng_schedules(rng, step_counts(procs), 30):
+            for s in rng_schedules(rng, step_counts(procs), per):
                 extra.append({"kind": kind, "procs": procs, "schedule": s})
         for kind, procs in MIXED3.items():
-            for s in rng_schedules(rng, step_counts(procs), 40):
+            for s in rng_schedules(rng, step_counts(procs), per + 10):
                 extra.append({"kind": "mixed:" + kind, "procs": procs, "schedule": s, "serial_ref": False})
-        phase_controlled(res, extra, "search:conc-e2e extra schedules")
-        phase_stress(res, 60, seed + 1)
-        res.extra["search"] = (f"{len(extra)} extra controlled schedules (2 and 3 processes) and 60 extra stress rounds, "
-                               "all oracles evaluated on the implementation: no failing input found")
+        rng.shuffle(extra)
+        phase_controlled(res, extra, "search:conc-e2e extra schedules", deadline=time.time() + 90 if quick else None)
+        nst = 14 if quick else 60
+        phase_stress(res, nst, seed + 1)
+        res.extra["search"] = (f"up to {len(extra)} extra controlled schedules (2 and 3 processes, mixed writers) and {nst} extra stress "
+                               "rounds, all oracles evaluated on the implementation: no failing input found")
+        mark(res, "search after a broken tie", t0)
+    mark(res, "e2e total", e2e_t0)
     return res.finish()
 
 
